@@ -13,9 +13,9 @@ FIX = {
     "C10-m2": "a valid PIN file made of look-alike characters (0 l I 1 O)",
     "C12-m1": "caught at once by the sibling C01 (sequence differential: a legacy sign after a segwit one on the same dongle object); in C12 the two sign requests are of the same kind",
     "C12-m2": "OPEN: one listener thread per address of a multi-address bind host - the fake socket module answers one listening socket; getaddrinfo of the bind host is outside the model (recorded under limits)",
-    "C15-m1": "see the builder's last commit, if any: a previous attestation file as the input certificate of a second gathering (builder-attest, asked 80 minutes before the end)",
+    "C15-m1": "a re-gathering history: an earlier attestation file as the input certificate of a new gathering after the device state moved on; one element per name in every written file (builder-attest, f6b3021)",
     "C16-m1": "see the builder's last commit, if any: spare elements with falsy signed_by (builder-certs, asked 80 minutes before the end)",
-    "C17-m2": "see the builder's last commit, if any: files of 9, 10, 11 signatures authorized at the last one (builder-admin, asked 80 minutes before the end)",
+    "C17-m2": "authorization files with 8..12 signatures (around the UI's maximum of 10 authorizers) against thresholds n-2, n-1, n, never and genuine devices needing the last signature (builder-admin, bdbc7a5)",
 }
 NEEDS_RE = re.compile(r"(?is)(?:what )?(?:is |it )?(?:need(?:ed|s)?|trigger|manifest)[^\n]*\n(.*?)(?:\n#|\n\*\*[A-Z]|\Z)")
 n = 0
